@@ -320,19 +320,33 @@ fn inline_new_literal_consts(rel: &str, file: &mut syn::File) {
         None => return,
     };
     let mut map: std::collections::BTreeMap<String, proc_macro2::TokenStream> = Default::default();
-    for it in &file.items {
-        if let syn::Item::Const(c) = it {
+    // file-level and function-level constants alike
+    struct Collect<'a> {
+        reviewed: &'a std::collections::BTreeSet<String>,
+        found: Vec<(String, Option<proc_macro2::TokenStream>)>,
+    }
+    impl<'a, 'ast> Visit<'ast> for Collect<'a> {
+        fn visit_item_const(&mut self, c: &'ast syn::ItemConst) {
             let name = c.ident.to_string();
-            if reviewed.contains(&name) || !matches!(c.vis, syn::Visibility::Inherited) || !c.attrs.is_empty() {
-                continue;
+            if self.reviewed.contains(&name) || !matches!(c.vis, syn::Visibility::Inherited) || !c.attrs.is_empty() {
+                self.found.push((name, None));
+                return;
             }
             let lit = match &*c.expr {
                 syn::Expr::Lit(_) => true,
                 syn::Expr::Unary(u) => matches!(u.op, syn::UnOp::Neg(_)) && matches!(&*u.expr, syn::Expr::Lit(_)),
                 _ => false,
             };
-            if lit {
-                map.insert(name, c.expr.to_token_stream());
+            self.found.push((name, if lit { Some(c.expr.to_token_stream()) } else { None }));
+        }
+    }
+    let mut col = Collect { reviewed: &reviewed, found: vec![] };
+    col.visit_file(file);
+    for (name, val) in &col.found {
+        // a name defined twice (two functions with a local constant of the same name) is left alone
+        if col.found.iter().filter(|(n, _)| n == name).count() == 1 {
+            if let Some(v) = val {
+                map.insert(name.clone(), v.clone());
             }
         }
     }
@@ -381,6 +395,14 @@ fn inline_new_literal_consts(rel: &str, file: &mut syn::File) {
     }
     let names: Vec<String> = map.keys().cloned().collect();
     file.items.retain(|it| !matches!(it, syn::Item::Const(c) if names.contains(&c.ident.to_string())));
+    struct Drop<'a>(&'a [String]);
+    impl<'a> syn::visit_mut::VisitMut for Drop<'a> {
+        fn visit_block_mut(&mut self, b: &mut syn::Block) {
+            b.stmts.retain(|s| !matches!(s, syn::Stmt::Item(syn::Item::Const(c)) if self.0.contains(&c.ident.to_string())));
+            syn::visit_mut::visit_block_mut(self, b);
+        }
+    }
+    syn::visit_mut::VisitMut::visit_file_mut(&mut Drop(&names), file);
     let ts = go(file.to_token_stream(), &map);
     if let Ok(nf) = syn::parse2::<syn::File>(ts) {
         *file = nf;
